@@ -29,6 +29,27 @@ Streams added for anchor coverage (after the original ones, so the original draw
   selected) — expected verdicts from the Lean model under the translated selection.
 * `degenerate`: empty graphs, a graph queried against itself, `node_attrs=None`, backend spelled
   `"NX"`, unsupported backends (must raise or answer as the model does).
+
+Streams added for representation / scale (after all the others; the earlier draws are unchanged).  The model side is
+computed per query from the encoded graphs alone (the Lean model is pure); `graphio` maps every Python spelling of a
+number (int / float / numpy scalars) to one `Val.num` and every `str` subclass to one `Val.str`, so re-spelling a value
+never changes what the specification says.  Violation cases carry a `types` table so that a replay rebuilds the very
+Python objects (`to_nx` alone would give plain ints):
+* `representation`: query histories over graphs whose numeric labels are spelled as int / float / numpy.int64 / int32 /
+  float64 (uniformly per graph — graph A all ints, graph B all floats — or mixed value by value inside one graph), str
+  labels partly as `numpy.str_`; richer selections (up to 7 node keys: element, charge, hcount, aromatic (bool), isotope
+  (multi-digit), grp (tuple-valued, (1,2) next to (2,1) and ()), name ('' / 'a' / 'A' / 'a '), label present on nodes AND
+  edges; permuted key lists, keys given as tuple), bond orders as strings ('-', '=', 'SINGLE', ...), falsy labels ('' as
+  element, order 0, empty tuple), charges / hydrogen counts >= 10, unselected noise attributes (`weight`, `capacity`,
+  `id`, `color`) with unrelated values on nodes and edges; symmetric skeletons where one value of one extra key breaks
+  the symmetry; pairs: relabelled copy, one-edit (incl. an edit of an extra key), labels permuted over the same skeleton,
+  strictly smaller planted pattern; further graph objects derived from a queried one (`copy()`, a re-spelled copy, an
+  induced sub-graph); the same query repeated, a second engine object with the same configuration.
+* `tiny-retyped`: pairs of the tiny-exhaustive classes with the second graph re-spelled, selections containing the numeric
+  keys, filter off / on, both argument orders.
+* `scale`: 9-12 nodes (one to four more than the random streams), node ids up to 10^6, max_mappings in {6, 10, 100}.
+* `repr-sub` / `repr-giso` / `repr-search`: the boolean sub-graph tests, `graph_isomorphism` and
+  `find_subgraph_mappings(pre_filter=..)` on the inputs of their own generators, re-spelled the same way.
 """
 import json
 
@@ -86,6 +107,8 @@ def mk_engine(cfg):
         kw["backend"] = cfg["backend"]
     if cfg.get("none_for_empty"):  # the documented default `None` instead of an empty selection
         na, ea = (na or None), (ea or None)
+    if cfg.get("attrs_as") == "tuple":  # the selections are documented as lists; a tuple may be refused, not answered differently
+        na, ea = (None if na is None else tuple(na)), (None if ea is None else tuple(ea))
     return GraphMatcherEngine(node_attrs=na, edge_attrs=ea, wl1_filter=cfg["wl1_filter"],
                               max_mappings=cfg["max_mappings"], **kw)
 
@@ -93,7 +116,151 @@ def mk_engine(cfg):
 def backend_supported(cfg):
     """Only the spelling "nx" is taken as certainly supported: C07 says nothing about back-end names, so for any other
     name (incl. "NX", which the engine lower-cases today) raising is accepted, and an answer is judged like any other."""
-    return cfg.get("backend", "nx") == "nx"
+    return cfg.get("backend", "nx") == "nx" and not cfg.get("attrs_as")
+
+
+# ---------------------------------------------------------------- representation of attribute values
+# The protocol (graphio) identifies 1, 1.0, numpy.int64(1), numpy.float64(1.0) (one `Val.num`) and 'C', numpy.str_('C')
+# (one `Val.str`), exactly the values Python's `==` / `hash` identify; bool stays apart.  A case that was evaluated with
+# some other spelling than `graphio.to_nx` gives back carries a table of type tags, so that a replay rebuilds the objects.
+def _np():
+    import numpy
+    return numpy
+
+
+def tag_of(x):
+    """Type tag of a value, None when `graphio.unval(graphio.val(x))` already has x's type."""
+    np = _np()
+    if x is None or isinstance(x, (bool, np.bool_)):
+        return None
+    if isinstance(x, np.str_):
+        return "np.str_"
+    if isinstance(x, str):
+        return None
+    if isinstance(x, np.generic):
+        return "np." + type(x).__name__
+    if isinstance(x, float):
+        return "float" if x == int(x) else None
+    if isinstance(x, tuple):
+        ts = [tag_of(y) for y in x]
+        return {"t": ts} if any(t is not None for t in ts) else None
+    return None
+
+
+def retag(x, t):
+    if t is None:
+        return x
+    if isinstance(t, dict):
+        return tuple(retag(y, u) for y, u in zip(x, t["t"]))
+    if t == "float":
+        return float(x)
+    return getattr(_np(), t[3:])(x)
+
+
+def plain(x):
+    """The spelling `graphio.to_nx` produces."""
+    try:
+        return graphio.unval(graphio.val(x))
+    except graphio.Unsupported:
+        return x
+
+
+def _tags(d):
+    out = {}
+    for k, x in d.items():
+        t = tag_of(x)
+        if t is not None:
+            out[str(k)] = t
+    return out
+
+
+def types_of(g):
+    ns = [[int(v), t] for v, t in ((v, _tags(d)) for v, d in g.nodes(data=True)) if t]
+    es = [[int(u), int(v), t] for u, v, t in ((u, v, _tags(d)) for u, v, d in g.edges(data=True)) if t]
+    return {"nodes": ns, "edges": es} if ns or es else None
+
+
+def apply_types(g, ty):
+    if ty:
+        for v, t in ty.get("nodes", []):
+            for k, u in t.items():
+                g.nodes[v][k] = retag(g.nodes[v][k], u)
+        for a, b, t in ty.get("edges", []):
+            for k, u in t.items():
+                g[a][b][k] = retag(g[a][b][k], u)
+    return g
+
+
+def typed(case, **gs):
+    """Add the type table of the named graphs to a case dict (nothing when every value is plain)."""
+    ty = {k: types_of(g) for k, g in gs.items()}
+    ty = {k: v for k, v in ty.items() if v}
+    if ty:
+        case["types"] = ty
+    return case
+
+
+def untyped(c, name):
+    return apply_types(graphio.to_nx(c[name]), (c.get("types") or {}).get(name))
+
+
+FORMS = ["int", "float", "np.int64", "np.float64", "np.int32"]
+MODES = FORMS + ["mixed", "mixed", "mixed", "asis"]
+
+
+def as_form(x, form):
+    np = _np()
+    integral = float(x) == int(x)
+    if form == "int":
+        return int(x) if integral else float(x)
+    if form == "float":
+        return float(x)
+    if form == "np.float64" or not integral:
+        return np.float64(x)
+    return getattr(np, form[3:])(int(x))
+
+
+def retype_val(rnd, x, mode, str_p):
+    np = _np()
+    if isinstance(x, tuple):
+        return tuple(retype_val(rnd, y, mode, str_p) for y in x)
+    if isinstance(x, str):
+        return np.str_(x) if rnd.random() < str_p else str(x)
+    if x is None or isinstance(x, (bool, np.bool_)) or mode == "asis":
+        return x
+    return as_form(x, rnd.choice(FORMS) if mode == "mixed" else mode)
+
+
+def retype_graph(rnd, g, mode=None, str_p=None):
+    """A new graph object, same node ids / insertion order / values, every number spelled per `mode` (one form for the
+    whole graph, or "mixed": drawn value by value), strings as numpy.str_ with probability str_p."""
+    mode = rnd.choice(MODES) if mode is None else mode
+    str_p = rnd.choice([0.0, 0.0, 0.5, 1.0]) if str_p is None else str_p
+    out = nx.Graph()
+    for v, d in g.nodes(data=True):
+        out.add_node(v, **{k: retype_val(rnd, x, mode, str_p) for k, x in d.items()})
+    for u, v, d in g.edges(data=True):
+        out.add_edge(u, v, **{k: retype_val(rnd, x, mode, str_p) for k, x in d.items()})
+    if graphio.graph(out) != graphio.graph(g):
+        raise AssertionError("harness: re-spelling changed the encoded graph")
+    return out, mode
+
+
+NOISE_KEYS = ["weight", "capacity", "id", "color"]
+
+
+def add_noise(rnd, g):
+    """Attributes no engine selects, with values unrelated between graphs (a library default might pick them up)."""
+    keys = rnd.sample(NOISE_KEYS, rnd.randint(1, 2))
+    for k in keys:
+        where = rnd.choice(["edges", "edges", "nodes", "both"])
+        if where != "nodes":
+            for u, v in g.edges:
+                g[u][v][k] = rnd.choice([0, 1, 2.5, 7, "a", ""]) if k != "color" else rnd.choice(["r", "g"])
+        if where != "edges":
+            for v in g.nodes:
+                g.nodes[v][k] = rnd.choice([0, 1, 2.5, 7, "a", ""]) if k != "color" else rnd.choice(["r", "g"])
+    return g
 
 
 def impl_history(graphs, queries):
@@ -143,7 +310,11 @@ def hist_request(graphs, queries):
 
 
 def hist_case(graphs, queries):
-    return {"kind": "history", "graphs": [graphio.graph(g) for g in graphs], "queries": queries}
+    c = {"kind": "history", "graphs": [graphio.graph(g) for g in graphs], "queries": queries}
+    ty = [types_of(g) for g in graphs]
+    if any(ty):
+        c["types"] = ty
+    return c
 
 
 def _cmp_eq(a, b):
@@ -218,6 +389,9 @@ def impl_giso(g1, g2, use_defaults):
 
 
 # ---------------------------------------------------------------- evaluation
+TYPED_STREAMS = ("representation", "tiny-retyped", "scale")
+
+
 def eval_histories(ctx, cases, tag):
     """cases: list of (graphs, queries, shape)"""
     if not cases:
@@ -240,7 +414,16 @@ def eval_histories(ctx, cases, tag):
             else:
                 ctx.count("maps:" + ("0" if a["n"] == 0 else "1" if a["n"] == 1 else "many")
                           + ("/proper" if len(graphs[q["b"]]) < len(graphs[q["a"]]) else ""))
-        ctx.case([[graphio.graph(g) for g in graphs], queries], pos >= 1 and max(len(g) for g in graphs) >= 2,
+        canonical = [[graphio.graph(g) for g in graphs], queries]
+        if tag in TYPED_STREAMS:  # the spelling of the values is part of what makes two of these cases different
+            canonical.append([types_of(g) for g in graphs])
+            for g in graphs:
+                ctx.count("spelling:" + spelling_class(g))
+            if len(queries) >= 2:
+                ctx.count("queries_repeated:" + ("yes" if len({json.dumps(q, sort_keys=True) for q in queries}) < len(queries) else "no"))
+            for q in queries:
+                ctx.count(f"selection:{len(q['engine']['node_attrs'])}node+{len(q['engine']['edge_attrs'])}edge keys")
+        ctx.case(canonical, pos >= 1 and max(len(g) for g in graphs) >= 2,
                  sample={"stream": tag, **hist_case(graphs, queries)} if max(len(g) for g in graphs) <= 3 and len(queries) <= 2 else None)
         if mod["answers"] != mod["pure"]:
             ctx.violation("model: history answers differ from cache-free answers (theorem cache_transparent contradicted)",
@@ -250,7 +433,8 @@ def eval_histories(ctx, cases, tag):
             why, at = "an input graph was modified", len(queries) - 1
         for i, (q, a, m) in enumerate(zip(queries, impl, mod["answers"])):
             if not backend_supported(q["engine"]):
-                ctx.count("backend:" + str(q["engine"]["backend"]) + (":raised" if "error" in a else ":answered"))
+                ctx.count(("backend:" + str(q["engine"]["backend"]) if "backend" in q["engine"] else "attrs_as:" + str(q["engine"].get("attrs_as")))
+                          + (":raised" if "error" in a else ":answered"))
                 if "error" in a:  # no answer given: nothing for the property to judge
                     continue
             w = judge_answer(q, a, m)
@@ -275,6 +459,99 @@ def history_fails(ctx, graphs, queries):
     return judge_answer(queries[-1], impl[-1], mod["answers"][-1])
 
 
+def spelling_class(g):
+    tags = set()
+    for d in [d for _, d in g.nodes(data=True)] + [d for _, _, d in g.edges(data=True)]:
+        for x in d.values():
+            for y in (x if isinstance(x, tuple) else (x,)):
+                if y is not None and not isinstance(y, (bool, _np().bool_)):
+                    tags.add("str" if type(y) is str else type(y).__name__)
+    nums = sorted(t for t in tags if t not in ("str", "str_"))
+    return ("no-number" if not nums else nums[0] if len(nums) == 1 else "mixed-numbers") + ("+numpy.str_" if "str_" in tags else "")
+
+
+def simplify_repr(graphs, idxs, queries, fails, budget=80):
+    """Greedy, while `fails(graphs)` holds: remove attributes no query selects, then give values their plain spelling."""
+    selected = {"hcount"} | {k for q in queries for k in q["engine"]["node_attrs"]} | {k for q in queries for k in q["engine"]["edge_attrs"]}
+    graphs = list(graphs)
+    n = 0
+
+    def attempt(i, cand):
+        nonlocal n
+        n += 1
+        gs = list(graphs)
+        gs[i] = cand
+        try:
+            ok = fails(gs)
+        except Exception:
+            ok = False
+        if ok:
+            graphs[i] = cand
+        return ok
+
+    for i in idxs:
+        g = graphs[i]
+        extra = sorted({k for _, d in g.nodes(data=True) for k in d} | {k for _, _, d in g.edges(data=True) for k in d})
+        for k in extra:
+            if k in selected or n >= budget:
+                continue
+            h = graphs[i].copy()
+            for v in h.nodes:
+                h.nodes[v].pop(k, None)
+            for u, v in h.edges:
+                h[u][v].pop(k, None)
+            attempt(i, h)
+    for i in idxs:  # whole graph plain first, then value by value
+        if n >= budget or not types_of(graphs[i]):
+            continue
+        h = graphs[i].copy()
+        for v in h.nodes:
+            h.nodes[v].update({k: plain(x) for k, x in h.nodes[v].items()})
+        for u, v in h.edges:
+            h[u][v].update({k: plain(x) for k, x in h[u][v].items()})
+        if attempt(i, h):
+            continue
+        for v in list(graphs[i].nodes):
+            for k, x in list(graphs[i].nodes[v].items()):
+                if tag_of(x) is not None and n < budget:
+                    h = graphs[i].copy()
+                    h.nodes[v][k] = plain(x)
+                    attempt(i, h)
+        for u, v in list(graphs[i].edges):
+            for k, x in list(graphs[i][u][v].items()):
+                if tag_of(x) is not None and n < budget:
+                    h = graphs[i].copy()
+                    h[u][v][k] = plain(x)
+                    attempt(i, h)
+    return graphs
+
+
+def shrink_both(ga, gb, fails, budget=200):
+    """Remove one node from each graph at a time while `fails` holds (a one-sided removal leaves the equal-size branch)."""
+    n = 0
+    changed = True
+    while changed and n < budget and len(ga) > 1:
+        changed = False
+        for u in list(ga.nodes):
+            for v in list(gb.nodes):
+                n += 1
+                if n > budget:
+                    break
+                ha, hb = ga.copy(), gb.copy()
+                ha.remove_node(u)
+                hb.remove_node(v)
+                try:
+                    bad = fails(ha, hb)
+                except Exception:
+                    bad = False
+                if bad:
+                    ga, gb, changed = ha, hb, True
+                    break
+            if changed or n > budget:
+                break
+    return ga, gb
+
+
 def report_history(ctx, graphs, queries, why, tag):
     from ..shrink import shrink_seq
 
@@ -293,8 +570,14 @@ def report_history(ctx, graphs, queries, why, tag):
         ga, gb = matchgen.shrink_pair(graphs[a], graphs[b], fails, budget=200)
         graphs = list(graphs)
         graphs[a], graphs[b] = ga, gb
+        if len(graphs[a]) == len(graphs[b]):  # equal sizes (full isomorphism branch): shrink both sides together
+            ga, gb = shrink_both(graphs[a], graphs[b], fails)
+            graphs[a], graphs[b] = ga, gb
     if history_fails(ctx, graphs, queries) is None:  # e.g. the original failure was an exception: report it unshrunk
         graphs, queries = graphs0, queries0
+    else:  # 3. drop unselected attributes, then spell plainly every value whose spelling does not matter
+        graphs = simplify_repr(graphs, sorted({q[k] for q in queries for k in ("a", "b")}), queries,
+                               lambda gs: history_fails(ctx, gs, queries) is not None)
     why2 = history_fails(ctx, graphs, queries) or why
     mod = ctx.lean().ok([hist_request(graphs, queries)])[0]
     impl, _ = impl_history([g.copy() for g in graphs], queries)
@@ -345,7 +628,8 @@ def eval_sub(ctx, cases, tag):
             c2, p2 = matchgen.shrink_pair(child, parent, fails, budget=200)
             m2 = ctx.lean().ok([sub_request(c2, p2, cfg)])[0]
             ctx.violation("boolean sub-graph test departs from the definition of containment",
-                          {"kind": "sub", "which": which, "child": graphio.graph(c2), "parent": graphio.graph(p2), "cfg": cfg},
+                          typed({"kind": "sub", "which": which, "child": graphio.graph(c2), "parent": graphio.graph(p2), "cfg": cfg},
+                                child=c2, parent=p2),
                           {"clause": why, "stream": tag, "implementation": impl_sub(which, c2, p2, cfg), "specification": m2})
             break
         if len(ctx.violations) >= 5:
@@ -363,7 +647,7 @@ def eval_giso(ctx, cases, tag):
         impl = impl_giso(g1, g2, d)
         if "error" in impl or impl["verdict"] != mod:
             ctx.violation("graph_isomorphism verdict departs from the specification",
-                          {"kind": "giso", "g1": graphio.graph(g1), "g2": graphio.graph(g2), "use_defaults": d},
+                          typed({"kind": "giso", "g1": graphio.graph(g1), "g2": graphio.graph(g2), "use_defaults": d}, g1=g1, g2=g2),
                           {"implementation": impl, "specification": mod, "stream": tag})
             if len(ctx.violations) >= 5:
                 return
@@ -412,8 +696,8 @@ def search_request(host, pat, nk, ek, cfgs):
 
 
 def search_case(host, pat, nk, ek, cfg):
-    return {"kind": "search", "host": graphio.graph(host), "pattern": graphio.graph(pat), "node_keys": list(nk),
-            "edge_keys": list(ek), "cfg": cfg}
+    return typed({"kind": "search", "host": graphio.graph(host), "pattern": graphio.graph(pat), "node_keys": list(nk),
+                  "edge_keys": list(ek), "cfg": cfg}, host=host, pattern=pat)
 
 
 def judge_search(host, pat, nk, cfg, impl_off, impl_on, m_off, m_on):
@@ -751,6 +1035,338 @@ def gen_prefilter(ctx, count):
     return out
 
 
+# ---------------------------------------------------------------- representation / scale streams
+EXTRA_ALPH = {"aromatic": [False, True], "isotope": [0, 0, 12, 13, 2500], "grp": [(), (1, 2), (2, 1), (1,), (1, 2, 3)],
+              "name": ["", "a", "A", "a "], "label": ["", "x", "y"], "ring": [False, True]}
+ORDER_MAPS = [None, None, {1.0: "-", 2.0: "=", 3.0: "#", 1.5: ":"}, {1.0: "SINGLE", 2.0: "DOUBLE", 3.0: "TRIPLE", 1.5: "AROMATIC"},
+              {2.0: "="}, {3.0: 0}, {3.0: 12, 2.0: 10}, {1.0: "1", 2.0: "2"}]
+
+
+def decorate(rnd, g, symmetric=False):
+    """Extra attributes on EVERY node / edge of g (so that a WL engine can sort the label tuples), other spellings of the
+    bond orders, falsy / multi-digit values.  -> (extra node keys, extra edge keys).  On a symmetric skeleton every extra
+    key is constant except for one value of one key."""
+    nkeys = [k for k, p in (("aromatic", 0.35), ("isotope", 0.35), ("grp", 0.3), ("name", 0.3), ("label", 0.3)) if rnd.random() < p]
+    ekeys = [k for k, p in (("label", 1.0 if "label" in nkeys else 0.1), ("ring", 0.25)) if rnd.random() < p]
+    for k in nkeys:
+        const = rnd.choice(EXTRA_ALPH[k])
+        for v in g.nodes:
+            g.nodes[v][k] = const if symmetric else rnd.choice(EXTRA_ALPH[k])
+    for k in ekeys:
+        const = rnd.choice(EXTRA_ALPH[k])
+        for u, v in g.edges:
+            g[u][v][k] = const if symmetric else rnd.choice(EXTRA_ALPH[k])
+    if symmetric and nkeys and len(g):
+        k, v = rnd.choice(nkeys), rnd.choice(list(g.nodes))
+        g.nodes[v][k] = rnd.choice([x for x in EXTRA_ALPH[k] if x != g.nodes[v][k]])
+    om = rnd.choice(ORDER_MAPS)
+    if om:
+        for u, v in g.edges:
+            g[u][v]["order"] = om.get(g[u][v].get("order"), g[u][v].get("order"))
+    r = rnd.random()
+    if r < 0.15:  # a falsy element symbol
+        for v in g.nodes:
+            if g.nodes[v].get("element") == "N":
+                g.nodes[v]["element"] = ""
+    elif r < 0.3:  # symbols that differ only in case / length
+        for v in g.nodes:
+            g.nodes[v]["element"] = {"N": "Cl", "O": "c"}.get(g.nodes[v].get("element"), g.nodes[v].get("element"))
+    if rnd.random() < 0.2:
+        for v in g.nodes:
+            g.nodes[v]["charge"] = g.nodes[v].get("charge", 0) * rnd.choice([10, 12])
+    if rnd.random() < 0.15:
+        for v in g.nodes:
+            if "hcount" in g.nodes[v]:
+                g.nodes[v]["hcount"] += 10
+    return nkeys, ekeys
+
+
+def edit_extra(rnd, g, nkeys, ekeys):
+    """One value of one extra key changed."""
+    h = g.copy()
+    opts = [("n", k) for k in nkeys if len(h)] + [("e", k) for k in ekeys if h.number_of_edges()]
+    if not opts:
+        return matchgen.one_edit(rnd, g)
+    where, k = rnd.choice(opts)
+    if where == "n":
+        v = rnd.choice(list(h.nodes))
+        h.nodes[v][k] = rnd.choice([x for x in EXTRA_ALPH[k] if x != h.nodes[v][k]])
+    else:
+        u, v = rnd.choice(list(h.edges))
+        h[u][v][k] = rnd.choice([x for x in EXTRA_ALPH[k] if x != h[u][v][k]])
+    return h, "extra:" + k
+
+
+def permute_labels(rnd, g):
+    """Same skeleton, same multiset of node (or edge) labels, placed differently."""
+    h = g.copy()
+    if rnd.random() < 0.6 or not h.number_of_edges():
+        nodes = list(h.nodes)
+        ds = [dict(h.nodes[v]) for v in nodes]
+        rnd.shuffle(ds)
+        for v, d in zip(nodes, ds):
+            h.nodes[v].clear()
+            h.nodes[v].update(d)
+    else:
+        edges = list(h.edges)
+        ds = [dict(h[u][v]) for u, v in edges]
+        rnd.shuffle(ds)
+        for (u, v), d in zip(edges, ds):
+            h[u][v].clear()
+            h[u][v].update(d)
+    return h
+
+
+def rich_engines(rnd, nkeys, ekeys, has_h, k, wl_ok=True):
+    pool_n = ["element", "charge"] + list(nkeys) + (["hcount"] if has_h else [])
+    pool_e = ["order"] + list(ekeys)
+    out = []
+    for _ in range(k):
+        r = rnd.random()
+        if r < 0.3:  # everything, in some order
+            na = rnd.sample(pool_n, len(pool_n))
+        elif r < 0.55:  # the defaults plus more keys
+            na = ["element", "charge"] + rnd.sample(pool_n[2:], rnd.randint(0, len(pool_n) - 2))
+        elif r < 0.7:  # one numeric / extra key alone
+            na = [rnd.choice(pool_n[1:])]
+        else:
+            na = rnd.sample(pool_n, rnd.randint(0, len(pool_n)))
+        ea = rnd.sample(pool_e, len(pool_e)) if rnd.random() < 0.6 else rnd.sample(pool_e, rnd.randint(0, len(pool_e)))
+        e = {"node_attrs": na, "edge_attrs": ea, "wl1_filter": wl_ok and rnd.random() < 0.8,
+             "max_mappings": rnd.choice([1, None, None, 2, 6, 10])}
+        if rnd.random() < 0.12:
+            e["attrs_as"] = "tuple"
+        out.append(e)
+    return out
+
+
+def pair_queries(rnd, engines, ngraphs, wl_ok=True):
+    """The main pair (0, 1) with the filter off and on, both argument orders, embeddings; then further queries: other graph
+    objects, other engines, a query repeated verbatim, a second engine object with an equal configuration."""
+    e = engines[0]
+    on, off = {**e, "wl1_filter": wl_ok}, {**e, "wl1_filter": False}
+    qs = [{"op": "iso", "engine": off, "a": 0, "b": 1}, {"op": "iso", "engine": on, "a": 0, "b": 1},
+          {"op": "iso", "engine": on, "a": 1, "b": 0}, {"op": "maps", "engine": on, "a": 0, "b": 1},
+          {"op": "maps", "engine": off, "a": 0, "b": 1}]
+    for _ in range(rnd.randint(0, 4)):
+        r = rnd.random()
+        if r < 0.25:
+            qs.append(rnd.choice(qs))
+        else:
+            a = rnd.randrange(ngraphs)
+            b = a if rnd.random() < 0.08 else rnd.choice([x for x in range(ngraphs) if x != a])
+            eng = rnd.choice(engines)
+            if r < 0.45:
+                eng = {**eng, "instance": rnd.randint(2, 3)}  # ignored by both sides: only makes it a separate engine object
+            qs.append({"op": rnd.choice(["iso", "iso", "maps"]), "engine": eng, "a": a, "b": b})
+    if rnd.random() < 0.5:
+        rnd.shuffle(qs)
+    return qs
+
+
+def gen_representation(ctx, count):
+    rnd = ctx.rnd
+    out = []
+    for _ in range(count):
+        r = rnd.random()
+        symmetric = r < 0.15
+        habs = rnd.choice([0.0, 0.0, 1.0])
+        if symmetric:
+            g1 = matchgen.symmetric_family(rnd, rnd.choice(["cycle", "star", "path", "kab", "rep"]), rnd.randint(3, 7))
+        elif r < 0.3:
+            g1 = matchgen.multi_component(rnd, [rnd.randint(1, 3) for _ in range(rnd.randint(2, 3))], elems=["C", "C", "N"], hcount_absent_p=habs)
+        else:
+            g1 = matchgen.mol_like(rnd, rnd.randint(2, 8), elems=["C", "C", "N", "O"] if rnd.random() < 0.7 else ["C"],
+                                   charge_p=rnd.choice([0.1, 0.4]), hcount_absent_p=habs)
+        full_attrs(g1)
+        nkeys, ekeys = decorate(rnd, g1, symmetric)
+        r = rnd.random()
+        if r < 0.45:
+            g2, _ = matchgen.relabelled_copy(rnd, g1)
+            shape = "relabelled"
+        elif r < 0.6:
+            g2, _ = matchgen.relabelled_copy(rnd, g1)
+            g2, kind = matchgen.one_edit(rnd, g2)
+            shape = "one-edit"
+        elif r < 0.72:
+            g2, _ = matchgen.relabelled_copy(rnd, g1)
+            g2, kind = edit_extra(rnd, g2, nkeys, ekeys)
+            shape = "one-edit-extra"
+        elif r < 0.82:
+            g2, _ = matchgen.relabelled_copy(rnd, permute_labels(rnd, g1))
+            shape = "labels-permuted"
+        else:
+            g2, tag = matchgen.pattern_from(rnd, g1, rnd.randint(1, max(1, len(g1) - 1)), 1, induced_p=0.8, edit_p=0.2)
+            shape = "proper-pattern"
+        graphs = [g1, g2]
+        r = rnd.random()
+        if r < 0.2:  # objects derived from an object that is queried too
+            graphs.append(g1.copy())
+            ctx.count("repr_third_object:copy-of-queried")
+        elif r < 0.35:
+            keep = matchgen.connected_subset(rnd, g1, rnd.randint(1, len(g1)))
+            graphs.append(g1.subgraph(keep).copy())
+            ctx.count("repr_third_object:subgraph-of-queried")
+        elif r < 0.45:
+            g3, _ = matchgen.relabelled_copy(rnd, g2)
+            graphs.append(g3)
+            ctx.count("repr_third_object:relabelled-copy")
+        wl_ok = True
+        if rnd.random() < 0.1:  # optional attributes missing on some nodes / edges: `.get` gives None on both sides; the WL
+            wl_ok = False       # engine cannot sort None next to a value (assumption), so these are asked with the filter off
+            for g in graphs:
+                for v in g.nodes:
+                    for k in ["charge"] + nkeys:
+                        if rnd.random() < 0.2:
+                            g.nodes[v].pop(k, None)
+                for u, v in g.edges:
+                    for k in ["order"] + ekeys:
+                        if rnd.random() < 0.15:
+                            g[u][v].pop(k, None)
+            ctx.count("repr_attributes_absent(filter off)")
+        if rnd.random() < 0.5:
+            ctx.count("repr_unselected_noise_attributes")
+            for g in graphs:
+                if rnd.random() < 0.7:
+                    add_noise(rnd, g)
+        for k in nkeys:
+            ctx.count("repr_extra_node_key:" + k)
+        for k in ekeys:
+            ctx.count("repr_extra_edge_key:" + k)
+        orders = {type(d.get("order")).__name__ for d in (d for _, _, d in g1.edges(data=True))}
+        ctx.count("repr_orders:" + ("none" if not orders else "strings" if orders == {"str"} else "numbers" if "str" not in orders else "strings+numbers"))
+        # spelling: one mode per graph object (int graph vs float graph vs value-by-value mixtures)
+        graphs = [retype_graph(rnd, g)[0] for g in graphs]
+        # hcount is selectable only where every node of every graph carries it (a planted pattern may have dropped it)
+        has_h = all("hcount" in d for g in graphs for _, d in g.nodes(data=True))
+        engines = rich_engines(rnd, nkeys, ekeys, has_h, rnd.randint(1, 3), wl_ok)
+        qs = pair_queries(rnd, engines, len(graphs), wl_ok)
+        out.append((graphs, qs, "repr/" + ("symmetric/" if symmetric else "") + shape))
+    return out
+
+
+def gen_tiny_retyped(ctx, tiny, count):
+    """Pairs of tiny classes; the second graph relabelled and re-spelled; selections containing the numeric keys."""
+    rnd = ctx.rnd
+    by_n = {}
+    for g in tiny:
+        by_n.setdefault(len(g), []).append(g)
+    sels = [["element", "hcount"], ["element", "charge"], ["hcount"], ["charge", "element", "hcount"], ["hcount", "element"]]
+    out = []
+    for i in range(count):
+        a = rnd.choice(tiny)
+        r = rnd.random()
+        if r < 0.5:
+            b = a
+        elif r < 0.85:
+            b = rnd.choice(by_n[len(a)])
+        else:
+            b = rnd.choice(tiny)
+        if len(b) > len(a):
+            a, b = b, a
+        b2 = nx.relabel_nodes(b, {v: v + 10 for v in b.nodes})
+        a2, _ = retype_graph(rnd, a, rnd.choice(["asis", "int", "mixed"]), 0.0)
+        b2, _ = retype_graph(rnd, b2, FORMS[i % len(FORMS)] if i % 3 else "mixed", rnd.choice([0.0, 0.0, 1.0]))
+        e0 = {"node_attrs": sels[i % len(sels)], "edge_attrs": ["order"], "wl1_filter": False, "max_mappings": None}
+        e1 = {**e0, "wl1_filter": True}
+        qs = [{"op": "iso", "engine": e0, "a": 0, "b": 1}, {"op": "iso", "engine": e1, "a": 1, "b": 0},
+              {"op": "iso", "engine": e1, "a": 0, "b": 1}, {"op": "maps", "engine": e1, "a": 0, "b": 1},
+              {"op": "maps", "engine": e0, "a": 0, "b": 1}]
+        out.append(([a2, b2], qs, "tiny-retyped/" + ("same-class" if b is a else "same-size" if len(a) == len(b) else "smaller")))
+    return out
+
+
+def gen_scale(ctx, count):
+    """One to four nodes more than the random streams use, multi-digit node ids, larger max_mappings."""
+    rnd = ctx.rnd
+    out = []
+    for _ in range(count):
+        n = rnd.randint(9, 12)
+        base = rnd.choice([0, 90, 1000, 10 ** 6])
+        if rnd.random() < 0.15:
+            g1 = matchgen.symmetric_family(rnd, rnd.choice(["cycle", "path", "rep"]), n, base=base)
+        else:
+            g1 = matchgen.mol_like(rnd, n, ids=range(base, base + n), elems=["C", "C", "N", "O"], hcount_absent_p=rnd.choice([0.0, 0.15]))
+        full_attrs(g1)
+        r = rnd.random()
+        if r < 0.4:
+            g2, _ = matchgen.relabelled_copy(rnd, g1, base=rnd.choice([None, 500, 10 ** 5]))
+            shape = "relabelled"
+        elif r < 0.65:
+            g2, _ = matchgen.relabelled_copy(rnd, g1)
+            g2, _ = matchgen.one_edit(rnd, g2)
+            shape = "one-edit"
+        else:
+            k = rnd.choice([n - 1, n - 1, n - 2, rnd.randint(1, n - 1)])
+            g2, _ = matchgen.pattern_from(rnd, g1, k, 1, induced_p=0.8, edit_p=0.2)
+            shape = "proper-pattern"
+        graphs = [g1, full_attrs(g2)]
+        if rnd.random() < 0.5:
+            graphs = [retype_graph(rnd, g)[0] for g in graphs]
+            shape += "+respelled"
+        e = rand_engine(rnd, wl=False, mm=rnd.choice([1, 6, 10, 100, None]))
+        if "hcount" not in e["node_attrs"] and all("hcount" in d for g in graphs for _, d in g.nodes(data=True)) and rnd.random() < 0.2:
+            e = {**e, "node_attrs": e["node_attrs"] + ["hcount"]}
+        on = {**e, "wl1_filter": True}
+        qs = [{"op": "iso", "engine": e, "a": 0, "b": 1}, {"op": "iso", "engine": on, "a": 0, "b": 1},
+              {"op": "iso", "engine": on, "a": 1, "b": 0}, {"op": "maps", "engine": on, "a": 0, "b": 1},
+              {"op": "maps", "engine": e, "a": 0, "b": 1}]
+        out.append((graphs, qs, f"scale/{shape}"))
+    return out
+
+
+def respell_values(rnd, graphs):
+    """The same re-labelling of bond orders / element symbols in all graphs of a case (falsy, string-valued, multi-digit)."""
+    om = rnd.choice(ORDER_MAPS)
+    em = rnd.choice([None, None, {"N": ""}, {"N": "Cl", "O": "c"}])
+    for g in graphs:
+        if om:
+            for u, v in g.edges:
+                if "order" in g[u][v]:
+                    g[u][v]["order"] = om.get(g[u][v]["order"], g[u][v]["order"])
+        if em:
+            for v in g.nodes:
+                if "element" in g.nodes[v]:
+                    g.nodes[v]["element"] = em.get(g.nodes[v]["element"], g.nodes[v]["element"])
+    return ("+orders" if om else "") + ("+elements" if em else "")
+
+
+def respelled(rnd, graphs, values=True):
+    """-> (new graph objects, shape suffix): values re-labelled consistently, noise attributes, numbers / strings re-spelled
+    independently per graph."""
+    graphs = [g.copy() for g in graphs]
+    sfx = respell_values(rnd, graphs) if values and rnd.random() < 0.4 else ""
+    for g in graphs:
+        if rnd.random() < 0.3:
+            add_noise(rnd, g)
+    return [retype_graph(rnd, g)[0] for g in graphs], sfx
+
+
+def gen_repr_sub(ctx, n1, n2):
+    cs = []
+    for child, parent, cfg, shape in gen_sub(ctx, n1) + gen_sub_options(ctx, n2):
+        (child, parent), sfx = respelled(ctx.rnd, [child, parent])
+        cs.append((child, parent, cfg, "repr-" + shape + sfx))
+    return cs
+
+
+def gen_repr_giso(ctx, n):
+    gi = []
+    for _ in range(n):
+        g1, g2, shape = gen_pair(ctx.rnd)
+        (g1, g2), sfx = respelled(ctx.rnd, [g1, g2])
+        gi.append((g1, g2, ctx.rnd.random() < 0.6, "repr-" + shape + sfx))
+    return gi
+
+
+def gen_repr_search(ctx, n):
+    cs = []
+    for host, pat, nk, ek, cfgs, shape in gen_prefilter(ctx, n):
+        (host, pat), sfx = respelled(ctx.rnd, [host, pat])
+        cs.append((host, pat, nk, ek, cfgs, "repr-" + shape + sfx))
+    return cs
+
+
 SUB_SELECTIONS = [(["element", "charge"], [{"s": "*"}, {"n": 0}]), (["element"], [{"s": "*"}]), ([], []), (["charge"], [{"n": 0}]),
                   (["charge", "element"], [{"n": 0}, {"s": "C"}]), (["element"], [{"s": "C"}]), (["element", "hcount"], [{"s": "*"}, {"n": 0}])]
 
@@ -842,14 +1458,15 @@ def load_regress():
 
 def run_case_json(ctx, c, tag):
     if c.get("kind") == "sub":
-        eval_sub(ctx, [(graphio.to_nx(c["child"]), graphio.to_nx(c["parent"]), c["cfg"], "regress")], tag)
+        eval_sub(ctx, [(untyped(c, "child"), untyped(c, "parent"), c["cfg"], "regress")], tag)
     elif c.get("kind") == "giso":
-        eval_giso(ctx, [(graphio.to_nx(c["g1"]), graphio.to_nx(c["g2"]), c["use_defaults"], "regress")], tag)
+        eval_giso(ctx, [(untyped(c, "g1"), untyped(c, "g2"), c["use_defaults"], "regress")], tag)
     elif c.get("kind") == "search":
         cfg = {k: v for k, v in c["cfg"].items() if k != "pre_filter"}
-        eval_search(ctx, [(graphio.to_nx(c["host"]), graphio.to_nx(c["pattern"]), c["node_keys"], c["edge_keys"], [cfg], "regress")], tag)
+        eval_search(ctx, [(untyped(c, "host"), untyped(c, "pattern"), c["node_keys"], c["edge_keys"], [cfg], "regress")], tag)
     else:
-        eval_histories(ctx, [([graphio.to_nx(g) for g in c["graphs"]], c["queries"], "regress")], tag)
+        ty = c.get("types") or [None] * len(c["graphs"])
+        eval_histories(ctx, [([apply_types(graphio.to_nx(g), t) for g, t in zip(c["graphs"], ty)], c["queries"], "regress")], tag)
 
 
 def run(ctx):
@@ -859,6 +1476,8 @@ def run(ctx):
         "NetworkX VF2 (is_isomorphic, subgraph_is_isomorphic/monomorphic, *_iter) honours the node/edge closures it is given; its "
         "enumeration order is not modelled (embedding lists are gated on validity + length)",
         "Driver/GraphMatcherEngine.lean JSON codec, harness/graphio.py encoding, sorting of mapping sets",
+        "representation streams: `retype_graph` only re-spells values (checked on every graph: the encoding sent to Lean is unchanged); the "
+        "`types` table of a reported case + `apply_types` rebuild the same Python objects on replay",
         "stream prefilter: model SynKitModel/SubgraphSearch.lean through driver command c06.search (its theorems, incl. prefilter_spec / "
         "prefilter_zero_sound / prefilter_zero_lossless / prefilter_sound_or_large, are audited by ./check C06); harness cand_counts "
         "(the documented candidate definition, re-implemented here) only to classify a difference, cross-checked against the model on every case",
@@ -876,6 +1495,9 @@ def run(ctx):
         "(the SubgraphMatch copy raises TypeError on None — recorded, not gated); a constant-true comparator is read as 'attribute not selected' "
         "and only generated with use_filter=False",
         "a backend name other than 'nx' (incl. 'NX', which the engine lower-cases today) must raise or answer as the model does; mod is not installed, so the rule back-end itself is not exercised",
+        "attribute values are compared as Python compares them (`==`): 1, 1.0, numpy.int64(1), numpy.float64(1.0) are one label, 'C' and "
+        "numpy.str_('C') are one label (graphio encodes them to one Lean value); bool is kept apart from int (never mixed under one key); node ids "
+        "stay plain ints; attribute selections given as a tuple instead of the documented list must raise or answer as the model does",
     ]
     ctx.gen_rule = ("regression corpus first; tiny-exhaustive: all ordered pairs of graph classes with <=3 (quick) / <=4 (thorough) nodes over "
                     "2 elements x hcount{0,1} x orders{1,2}: isomorphic() with filter off/on in both argument orders, get_mappings(max_mappings=None), "
@@ -890,7 +1512,20 @@ def run(ctx):
                     "empty / isolated-node graphs; selections {element},{element,charge},{},{charge,element},{element,in_ring (partly absent)}); "
                     "sub-options (300 / 3000: edge_attribute in {'order','',None,'bond'}, 7 label selections/defaults with attributes dropped, "
                     "comparators none / eq / constant-true, is_subgraph back-ends 'mod','NX','bogus'); degenerate (150 / 1500 histories over a pair, "
-                    "the empty graph and a single node: same-object queries, node_attrs=None, backend 'NX'/'Nx' and unsupported names).")
+                    "the empty graph and a single node: same-object queries, node_attrs=None, backend 'NX'/'Nx' and unsupported names). "
+                    "Representation / scale streams: representation (450 / 5000 histories of 5-9 queries on 2-3 graph objects: relabelled copy 45%, "
+                    "one-edit 15%, one value of an extra key edited 12%, labels permuted over the skeleton 10%, strictly smaller planted pattern 18%; "
+                    "third object = copy / induced sub-graph / relabelled copy of a queried one in 45%; numbers spelled int / float / numpy.int64 / "
+                    "int32 / float64, one form per graph or value by value, strings as numpy.str_ with p in {0, .5, 1}; extra keys aromatic(bool), "
+                    "isotope{0,12,13,2500}, grp(tuples (), (1,2), (2,1), (1,), (1,2,3)), name{'', 'a', 'A', 'a '}, label on nodes and edges, ring(bool) "
+                    "on edges; bond orders re-labelled to symbols / words / digit strings / 0 / 10, 12 in 6 of 8 cases; element '' or 'Cl'/'c' in 30%; charges "
+                    "x10/x12 in 20%, hydrogen counts +10 in 15%; unselected weight/capacity/id/color attributes in 50%; attributes dropped (filter off) "
+                    "in 10%; 1-3 engines over the available keys, permuted, 12% given as tuples; the pair asked with the filter off and on in both "
+                    "argument orders, plus up to 4 further queries incl. verbatim repeats and equal-configuration engine objects); tiny-retyped "
+                    "(400 / 5000 pairs of tiny classes, same class 50% / same size 35%, second graph re-spelled, selections over element / charge / "
+                    "hcount); scale (120 / 1200 pairs with 9-12 nodes, ids from 0 / 90 / 1000 / 10^6, max_mappings in {1,6,10,100,None}, half of them "
+                    "re-spelled); repr-sub (250 / 2500), repr-giso (100 / 1000), repr-search (150 / 1500): the inputs of the sub-graph, "
+                    "graph_isomorphism and pre-filter generators with values re-labelled consistently (40%), noise attributes (30%) and every graph re-spelled.")
     ctx.nontrivial_rule = "case distinct as JSON, some graph has >=2 nodes and at least one positive answer (true verdict / non-empty embeddings)"
     build_and_audit(ctx, ["SynKitProofs.Props.C07"], "SynKitProofs/Audit/C07.lean", THEOREMS)
 
@@ -951,6 +1586,19 @@ def run(ctx):
         eval_sub(ctx, gen_sub_options(ctx, 300 if ctx.quick else 3000), "sub-options")
     if not ctx.violations:
         eval_histories(ctx, gen_degenerate(ctx, 150 if ctx.quick else 1500), "degenerate")
+    # ---- representation / scale streams (after everything else: the earlier draws are unchanged)
+    if not ctx.violations:
+        eval_histories(ctx, gen_representation(ctx, 450 if ctx.quick else 5000), "representation")
+    if not ctx.violations:
+        eval_histories(ctx, gen_tiny_retyped(ctx, tiny, 400 if ctx.quick else 5000), "tiny-retyped")
+    if not ctx.violations:
+        eval_histories(ctx, gen_scale(ctx, 120 if ctx.quick else 1200), "scale")
+    if not ctx.violations:
+        eval_sub(ctx, gen_repr_sub(ctx, 150 if ctx.quick else 1500, 100 if ctx.quick else 1000), "repr-sub")
+    if not ctx.violations:
+        eval_giso(ctx, gen_repr_giso(ctx, 100 if ctx.quick else 1000), "repr-giso")
+    if not ctx.violations:
+        eval_search(ctx, gen_repr_search(ctx, 150 if ctx.quick else 1500), "repr-search")
     ctx.obligation("correspondence: engine verdicts / embeddings / histories, sub-graph tests, graph_isomorphism, "
                    "find_subgraph_mappings with the pre-filter on/off impl == model", not ctx.violations)
 
